@@ -178,6 +178,55 @@ Proof. vm_compute. reflexivity. Qed.
     out = c.run_coq({"Run_C08": txt})
     ok, log = out["Run_C08"]
     c.oblige("Run_C08.run_agrees (memo machine with invalidation, instantiated with the fresh-process answers, reproduces the interleaved answers)", ok, log[-600:])
+    # ---------------- in-between queries on the same units written in another factor order
+    # A*B and B*A are one interned object whose factor order is that of its first construction; the planner walks factors in that order.
+    # history: the operands are first used written backwards (a conversion attempted in between), then the final query written forwards;
+    # fresh: the final query alone.  A difference is explained by the factor order exactly when the exported orders differ and the planner
+    # model, given each process's exported order, reproduces each process's outcome: that is the recorded finding; anything else is new.
+    import convlib
+    FAM = {"L": ["meter", "foot", "inch", "yard", "mile", "furlong", "fathom"], "T": ["second", "minute", "hour", "day"],
+           "M": ["gram", "pound", "ounce", "firkin"], "V": ["liter", "gallon", "pint"], "E": ["joule", "calorie"], "F": ["newton", "pound-force"]}
+    opairs = [([[None, "newton", -1], [None, "gram", 1], [None, "mile", 2]], [["milli", "gram", 1], [None, "meter", 2], ["milli", "newton", -1]]),
+              ([["milli", "inch", -1], ["milli", "pound-force", 2]], [["kilo", "furlong", -1], [None, "newton", 2]])]
+    for _ in range(14 if c.tier == "quick" else 150):
+        ds = c.rng.sample(sorted(FAM), c.rng.choice([2, 2, 3])); es = [c.rng.choice([1, 1, -1, 2, -2]) for _ in ds]
+        def side():
+            items = [[c.rng.choice([None, None, "kilo", "milli"]), c.rng.choice(FAM[d]), e] for d, e in zip(ds, es)]
+            c.rng.shuffle(items); return items
+        opairs.append((side(), side()))
+    m3 = ["int", "3", "1"]
+    def final(a, b): return {"op": "in_unit", "a": {"m": m3, "u": a}, "b": b}
+    def run_hist(ab):
+        a, b = ab
+        ra, rb = list(reversed(a)), list(reversed(b))
+        return impl("convsys_worker.py", {"systems": True, "cases": [final(ra, rb), final(rb, ra), final(a, b)]})
+    def run_fresh(ab):
+        return impl("convsys_worker.py", {"systems": True, "cases": [final(*ab)]})
+    with concurrent.futures.ThreadPoolExecutor(12) as ex:
+        hist_out = list(ex.map(run_hist, opairs)); fresh_out = list(ex.map(run_fresh, opairs))
+    nord = 0
+    for k, ((a, b), ho, fo) in enumerate(zip(opairs, hist_out, fresh_out)):
+        c.count(["operand-order", a, b], nontrivial=True)
+        hres, fres = ho["results"][-1], fo["results"][-1]
+        if "setup_err" in hres or "setup_err" in fres: continue
+        outcome = lambda r: r.get("m") or r.get("err")
+        if outcome(hres) == outcome(fres): continue
+        repl = {"declarations": "the shipped modules", "in_between": [final(list(reversed(a)), list(reversed(b)))], "final_query": final(a, b),
+                "interleaved": outcome(hres), "fresh": outcome(fres), "factor_order_interleaved": [hres["source"]["of"], hres["target"]["of"]],
+                "factor_order_fresh": [fres["source"]["of"], fres["target"]["of"]]}
+        order_differs = (hres["source"]["of"], hres["target"]["of"]) != (fres["source"]["of"], fres["target"]["of"])
+        explained = False
+        if order_differs:
+            i1 = convlib.run_block(c, f"ordh{k}", ho["export"], [final(a, b)], [hres], Fraction(1, 10**11))
+            i2 = convlib.run_block(c, f"ordf{k}", fo["export"], [final(a, b)], [fres], Fraction(1, 10**11))
+            explained = bool(i1.get(0, {}).get("model_ok")) and bool(i2.get(0, {}).get("model_ok"))
+        what = (f"{final(a, b)} answers {outcome(hres)} after the same operands were used written in the opposite order, {outcome(fres)} in a fresh process")
+        if explained:
+            nord += 1
+            c.violation("history-dependent:factor-order", what, repl)
+        else:
+            c.violation("history-dependent:operand-order-unexplained", what, repl)
+    c.cov["operand_order_pairs"] = len(opairs); c.cov["operand_order_dependent"] = nord
     c.sample({"history": hists[1][:8], "answers": full[1]["results"][:8]})
     c.finish(rule="random interleavings of fresh unit definitions, equals() declarations (dyadic ratios, simple and squared) and "
                   "in_unit / reverse / == / < / + queries between possibly unconnected units, in one process, versus the same "
